@@ -17,7 +17,7 @@
    - tree_ok         sibling data_ids unique, typed nodes have a kind, nodes sharing a data_id share their data *)
 From Coq Require Import List ZArith Bool String.
 From NT Require Import Sx Rose Serialize SerializeSpec SerCompressProofs SerWriterProofs SerReaderProofs SerIsoProofs SerializeProofs
-     SerTheorems SerWitness.
+     SerTheorems SerWitness SerReaderPerm.
 From NTGen Require Import Generated.
 Import ListNotations.
 Open Scope list_scope.
@@ -90,6 +90,24 @@ Theorem C12_reader_accepts_layout_maps : forall c ser deser shash f km vm meta,
 Proof. exact load_layout_described. Qed.
 Print Assumptions C12_reader_accepts_layout_maps.
 
+(* 2b. JSON objects are unordered: the same holds for every document that renders the layout with the
+       members of its objects (top level, header, entries) in ANY order; the header comes back up to order. *)
+Theorem C12_reader_accepts_any_member_order : forall c ser deser shash f ko vo meta j,
+  tree_ok c f -> opts_ok c ser ko vo meta f -> mapper_ok c ser deser f -> id_stable c ser deser shash f ->
+  doc_like (header_spec (resolve_km c ko) (resolve_vm c vo f) meta)
+           (layout c ser (resolve_km c ko) (resolve_vm c vo f) f) j ->
+  exists hdr' f', load_doc c deser shash j = Ok (hdr', f') /\
+                  Permutation.Permutation hdr' (header_spec (resolve_km c ko) (resolve_vm c vo f) meta) /\
+                  iso f f' /\ ids f' = seq 1 (size_f f).
+Proof. exact layout_like_loads. Qed.
+Print Assumptions C12_reader_accepts_any_member_order.
+
+(* e.g. the rendering with all members reversed (and "nodes" before "meta") *)
+Theorem C12_reversed_rendering_is_admissible : forall c ser km vm hdr f,
+  doc_like hdr (layout c ser km vm f) (rev_doc hdr (layout c ser km vm f)).
+Proof. exact rev_doc_like. Qed.
+Print Assumptions C12_reversed_rendering_is_admissible.
+
 (* 3. The literal documents of docs/sphinx/ug_serialize.rst (lifted from the .rst by gen_facts on
       every run) load to the trees drawn there, the marked clones share data_id and data object,
       and the stored "foo": "bar" comes back. *)
@@ -157,6 +175,12 @@ Proof.
   - apply wopts_ok; auto. apply ex_meta_ok.
   - apply opts_okb_sound; [exact f_ty_custom_ok|apply ex_meta_ok].
 Qed.
+(* the reversed rendering of f_ty (custom maps) is a different JSON value than the layout document *)
+Example C12_reversed_rendering_differs :
+  let km := resolve_km CTyped (KCustom ex_km) in let vm := resolve_vm CTyped (VCustom ex_vm) f_ty in
+  jv_eqb (rev_doc (header_spec km vm ex_meta) (layout CTyped wser km vm f_ty))
+         (layout_doc CTyped wser (KCustom ex_km) (VCustom ex_vm) ex_meta f_ty) = false.
+Proof. vm_compute. reflexivity. Qed.
 (* ... and the layout of f_ex shows the documented references *)
 Example C12_layout_example :
   let l := layout CPlain wser (resolve_km CPlain KTrue) (resolve_vm CPlain VTrue f_ex) f_ex in
